@@ -53,13 +53,19 @@ INVARIANT_TO_CONJUNCT = lambda name: name.rstrip("_")
 CASE_FIELDS = ("n", "deps", "list", "missing", "nopost", "nodtor", "noctor")
 
 
+def anti_of(c):
+    """edges declared from the other end: anti[p-1] = the modules p names with module_antidepends()"""
+    return c.get("anti") or [[] for _ in range(c["n"])]
+
+
 def case_key(c):
-    return json.dumps([c["n"], c["deps"], c["list"], c["missing"], c["nopost"], c["nodtor"], c["noctor"]],
-                      separators=(",", ":"))
+    return json.dumps([c["n"], c["deps"], c["list"], c["missing"], c["nopost"], c["nodtor"], c["noctor"]]
+                      + ([anti_of(c)] if any(anti_of(c)) else []), separators=(",", ":"))
 
 
 def graph_key(c):
-    return json.dumps([c["n"], c["deps"], c["list"], c["missing"]], separators=(",", ":"))
+    return json.dumps([c["n"], c["deps"], c["list"], c["missing"]] + ([anti_of(c)] if any(anti_of(c)) else []),
+                      separators=(",", ":"))
 
 
 def case_size(c):
@@ -68,7 +74,8 @@ def case_size(c):
 
 
 def signature(c):
-    deps = " ".join("m%d:%s" % (i + 1, ",".join("m%d" % d for d in ds)) for i, ds in enumerate(c["deps"]))
+    deps = " ".join("m%d:%s" % (i + 1, ",".join(["m%d" % d for d in ds] + ["~m%d" % d for d in anti_of(c)[i]]))
+                    for i, ds in enumerate(c["deps"]))
     sig = "%s | modules (%s) | no .so: %s" % (deps, ", ".join("m%d" % m for m in c["list"]),
                                              ",".join("m%d" % m for m in c["missing"]) or "-")
     if c.get("nopost"):
@@ -87,6 +94,7 @@ def with_defaults(c):
     c.setdefault("nopost", [])
     c.setdefault("nodtor", [])
     c.setdefault("noctor", [])
+    c.setdefault("anti", [[] for _ in range(c["n"])])
     return c
 
 
@@ -229,12 +237,16 @@ def helper_among_others(lst=(1,), noctor=(2,)):
             "nopost": [], "nodtor": [], "noctor": list(noctor)}
 
 
+def anti_chain():
+    return with_defaults({"n": 3, "deps": [[], [], []], "anti": [[], [3], [1]], "list": [1, 3, 2], "missing": []})
+
+
 def fixed_cases():
     return [diamond(), diamond(nopost=[4]), diamond(nodtor=[2, 3]), diamond(nopost=[2, 3, 4], nodtor=[1, 2, 3, 4]),
             triangle_nopost_bottom(), chain_nodtor_top(),
             helper_pulled_in(), diamond(noctor=[4]), diamond(nopost=[4], nodtor=[4], noctor=[4]),
             helper_among_others(), helper_among_others(lst=(3, 1)), helper_among_others(lst=(2, 1)),
-            helper_among_others(noctor=(2, 4))]
+            helper_among_others(noctor=(2, 4)), anti_chain()]
 
 
 # ----------------------------------------------------------------------------------------
@@ -281,6 +293,8 @@ MODEL_MUTANTS = [
      "model_mutant_NoDtorNoUnlink", "m3 -> m2 -> m1 with m3 lacking module_destructor"),
     ("NoCtorNoRestore", "ModLoad_bugNoCtorfile.cfg", helper_pulled_in, "B_PostInitAfterDeps",
      "model_mutant_NoCtorNoRestore", "m1 -> m2, only m1 listed, with m2 lacking module_constructor"),
+    ("NoAntiMirror", "ModLoad_bugNoAntifile.cfg", anti_chain, "B_DtorBeforeDeps",
+     "model_mutant_NoAntiMirror", "m2 back-end of m3, m3 back-end of m1 (module_antidepends), listed m1, m3, m2"),
 ]
 
 
@@ -338,7 +352,7 @@ def render(c, libroot, wdir, lib_text=None):
     """deps file, configuration and (unless lib_text is given: replay text only) the library directory."""
     if len(c["missing"]) > 1 or c["n"] > MAXMODS \
             or set(c["missing"]) & (set(c["nopost"]) | set(c["nodtor"]) | set(c["noctor"])) \
-            or any(c["deps"][m - 1] for m in c["noctor"]):       # nobody to call module_depends() for it
+            or any(c["deps"][m - 1] or anti_of(c)[m - 1] for m in c["noctor"]):    # nobody to call module_depends() for it
         raise core.MachineryError("case outside the renderable space: %r" % (c,))
     lib = lib_text or os.path.join(wdir, "lib")
     if lib_text is None:
@@ -348,13 +362,20 @@ def render(c, libroot, wdir, lib_text=None):
             if m not in c["missing"]:
                 os.symlink(os.path.join(libroot, "pool", "m%d.%s.so" % (m, variant_of(c, m))),
                            os.path.join(lib, "m%d.so" % m))
-    deps = "".join("m%d:%s\n" % (i + 1, "".join(" m%d" % d for d in ds)) for i, ds in enumerate(c["deps"]))
+    # the constructor walks its items in order: module_depends() calls, then module_antidepends() calls (ModLoad!Calls)
+    deps = "".join("m%d:%s%s\n" % (i + 1, "".join(" m%d" % d for d in ds), "".join(" ~m%d" % d for d in anti_of(c)[i]))
+                   for i, ds in enumerate(c["deps"]))
     conf = "core {\n  library_path ( \"%s\" )\n  modules ( %s )\n}\n" % (lib, ", ".join("m%d" % m for m in c["list"]))
     with open(os.path.join(wdir, "deps"), "w") as f:
         f.write(deps)
     with open(os.path.join(wdir, "conf"), "w") as f:
         f.write(conf)
     return deps, conf
+
+
+# a legal log has at most 4 events per module plus "running" (25 for 6 modules); a runaway start-up (constructors
+# re-entering each other) writes tens of thousands: only the first LOG_CAP events are kept and judged
+LOG_CAP = 400
 
 
 def read_log(path):
@@ -366,6 +387,8 @@ def read_log(path):
                 line = line.strip()
                 if not line:
                     continue
+                if len(out) >= LOG_CAP:
+                    break
                 try:
                     o = json.loads(line)
                     name = o.get("m")
@@ -390,7 +413,7 @@ def run_one(daemon, libroot, wdir, c, grace):
     env = dict(os.environ)
     env.pop("VERIF_MODSTOP_ARMED", None)
     env.update({"VERIF_MODDEPS": os.path.join(wdir, "deps"), "VERIF_MODLOG": logp, "VERIF_MODSTOP": "1",
-                "ASAN_OPTIONS": "detect_leaks=0:abort_on_error=0", "UBSAN_OPTIONS": "print_stacktrace=1"})
+                "ASAN_OPTIONS": "detect_leaks=0:abort_on_error=0:exitcode=97", "UBSAN_OPTIONS": "print_stacktrace=1"})
     with open(errp, "w") as ferr:
         p = subprocess.Popen(["timeout", "-k", "5", "90", daemon, "-n", "-f", os.path.join(wdir, "conf")],
                              cwd=wdir, env=env, stdin=subprocess.DEVNULL, stdout=ferr, stderr=ferr)
@@ -420,7 +443,7 @@ def run_one(daemon, libroot, wdir, c, grace):
                 err = f.read()[-1500:]
         except OSError:
             pass
-    line = {"n": c["n"], "deps": c["deps"], "list": c["list"], "missing": c["missing"],
+    line = {"n": c["n"], "deps": c["deps"], "anti": anti_of(c), "list": c["list"], "missing": c["missing"],
             "nopost": c["nopost"], "nodtor": c["nodtor"], "noctor": c["noctor"],
             "log": log, "events": nlines, "status": status}
     return line, external_at is not None, err
@@ -459,7 +482,7 @@ def run_real(ctx, cases, libroot, procs=16, budget_s=None):
     os.makedirs(os.path.join(ctx.scratch, "run"), exist_ok=True)
     per = max(1, min(250, (len(cases) + procs * 4 - 1) // (procs * 4)))
     deadline = None if budget_s is None else time.time() + budget_s
-    jobs = [(i, daemon, libroot, ctx.scratch, [{k: c[k] for k in CASE_FIELDS} for c in cases[s:s + per]], deadline)
+    jobs = [(i, daemon, libroot, ctx.scratch, [dict({k: c[k] for k in CASE_FIELDS}, anti=anti_of(c)) for c in cases[s:s + per]], deadline)
             for i, s in enumerate(range(0, len(cases), per))]
     res = []
     if len(cases) <= 4:
@@ -648,7 +671,11 @@ def must_reject(ctx, lines):
         r = _tlc.run("ModLoadTrace", "ModLoadTrace.cfg", workers=1, timeout=300, deadlock=True,
                      env={"TRACE": p, "START": "1"})
         os.unlink(p)
-        return what, expect, (INVARIANT_TO_CONJUNCT(r.violated) if r.violated else None)
+        got = INVARIANT_TO_CONJUNCT(r.violated) if r.violated else None
+        if got != expect:
+            with open(os.path.join(os.environ.get("VERIF_SCRATCH", "/var/tmp"), "iauthd-verif", "c20-selftest-failed.json"), "w") as fh:
+                fh.write(json.dumps(ln) + "\n")
+        return what, expect, got
     with concurrent.futures.ThreadPoolExecutor(max_workers=7) as ex:
         for what, expect, got in ex.map(one, enumerate(tests)):
             if got != expect:
@@ -664,7 +691,7 @@ def must_reject(ctx, lines):
 
 def confirm_and_report(ctx, libroot, line, conjunct, text):
     """Second opinion on a fresh process, judged by TLC again; only then a VIOLATION."""
-    c = {k: line[k] for k in CASE_FIELDS}
+    c = dict({k: line[k] for k in CASE_FIELDS}, anti=anti_of(line))
     res = run_real(ctx, [c], libroot)
     line2, _, err = res[0]
     found, _ = validate(ctx, [line2], "confirm")
@@ -713,7 +740,11 @@ def run(ctx):
     if quick:
         add(model_run(ctx, "ModLoad_quick.cfg", "n<=3", True),
             "enum n<=3, calls in name order, paired hook profiles for the good cases")
+        add(model_run(ctx, "ModLoad_antiq.cfg", "n<=3-antidepends", True),
+            "enum n<=3 with edges declared by module_antidepends() too (consistent declarations), all entry points")
     else:
+        add(model_run(ctx, "ModLoad_anti.cfg", "n<=3-antidepends", True, workers=12),
+            "enum n<=3 with edges declared by module_antidepends() too (consistent declarations), paired hook profiles")
         add(model_run(ctx, "ModLoad_orders.cfg", "n<=3-all-call-orders", True, workers=12),
             "enum n<=3, every call order; for the good cases every post-init/destructor profile, every set of "
             "declaration-free modules without constructor")
@@ -744,8 +775,9 @@ def run(ctx):
     for what, pool, count in strata:
         pool = sorted(pool, key=case_key)
         for c in (rng.sample(pool, count) if len(pool) > count else pool):
-            nopost, nodtor, noctor = draw_profile(rng, c["n"], c["deps"], c["missing"], force=True)
-            v = {"n": c["n"], "deps": c["deps"], "list": c["list"], "missing": c["missing"],
+            nopost, nodtor, noctor = draw_profile(rng, c["n"], [d + a for d, a in zip(c["deps"], anti_of(c))], c["missing"],
+                                                  force=True)
+            v = {"n": c["n"], "deps": c["deps"], "anti": anti_of(c), "list": c["list"], "missing": c["missing"],
                  "nopost": nopost, "nodtor": nodtor, "noctor": noctor}
             if case_key(v) not in seen:
                 seen.add(case_key(v))
